@@ -97,6 +97,8 @@ func (f *forwarder) waitConn(d time.Duration) bool {
 	return WaitUntil(d, func() bool { f.mu.Lock(); defer f.mu.Unlock(); return len(f.conns) > 0 })
 }
 
+func (f *forwarder) isUp() bool { f.mu.Lock(); defer f.mu.Unlock(); return f.lis != nil }
+
 func (f *forwarder) cut() {
 	f.mu.Lock()
 	for c, a := range f.conns {
@@ -194,12 +196,17 @@ type dialHooks struct {
 	rec    *Rec
 	redial int32
 	over   int32
+	bad    int32 // re-established connections are rejected by this hook
 }
 
 func (d *dialHooks) Name() string { return "verif-dial-hooks" }
 func (d *dialHooks) PostDial(s erpc.PreSession, isRedial bool) *erpc.Status {
 	if atomic.LoadInt32(&d.over) != 0 {
 		return nil // the scenario is over: do not write into the next trace
+	}
+	if isRedial && atomic.LoadInt32(&d.bad) == 1 {
+		d.rec.Emit("DialHookReject")
+		return erpc.NewStatus(403, "Forbidden", "scripted rejection of the re-established connection")
 	}
 	if isRedial {
 		atomic.AddInt32(&d.redial, 1)
@@ -398,8 +405,14 @@ func runRedial(rec *Rec, app *App, fw *forwarder, sc *RedialScenario, n int) {
 				time.Sleep(rest)
 			}
 			fw.up()
+		case "hooksbad":
+			atomic.StoreInt32(&hooks.bad, 1)
+			srvUp = false // as far as redials are concerned
+		case "hooksok":
+			atomic.StoreInt32(&hooks.bad, 0)
+			srvUp = fw.isUp()
 		case "up":
-			srvUp = true
+			srvUp = atomic.LoadInt32(&hooks.bad) == 0
 			fw.up()
 		case "setid":
 			userID = fmt.Sprintf("user-%d", n)
@@ -430,7 +443,7 @@ func runRedial(rec *Rec, app *App, fw *forwarder, sc *RedialScenario, n int) {
 			got, listed := cli.GetSession(sess.ID())
 			idok := userID == "" || sess.ID() == userID
 			rec.Emit("Probe", "expect", stp.Expect, "health", sess.Health(), "notified", notified, "indexed", listed && got == sess, "idok", idok,
-				"id", sess.ID(), "redialhooks", atomic.LoadInt32(&hooks.redial), "losses", losses, "budget", budget, "status", erpc.VerifStatusNames[erpc.VerifStatus(sess)])
+				"count", cli.CountSession(), "id", sess.ID(), "redialhooks", atomic.LoadInt32(&hooks.redial), "losses", losses, "budget", budget, "status", erpc.VerifStatusNames[erpc.VerifStatus(sess)])
 		}
 	}
 	if inf != nil {
